@@ -696,8 +696,30 @@ def run_rule(ctx, rid):
             o = obj(n)
             if is_field(o):
                 tables.add(o.get("n"))
-        if tables >= {"m_pre", "m_post"} and len(em) == len(okb):
-            ctx.ok("every label starts at bottom in m_pre and m_post", fn, body, rid=rid)
+        # emplace/insert never overwrite: the tables must be emptied first (re-running the same iterator object
+        # from a block in the middle of the CFG must not see the previous run's values for skipped blocks)
+        def gen(n):
+            if is_call(n, name="clear") and (is_this(n.get("o")) or is_field(obj(n))):
+                if is_this(n.get("o")):
+                    return ("clr:m_pre", "clr:m_post")
+                return ("clr:" + obj(n).get("n", ""),)
+            if is_call(n, name=("clear_pre",)) and is_this(n.get("o")):
+                return ("clr:m_pre",)
+            if is_call(n, name=("clear_post",)) and is_this(n.get("o")):
+                return ("clr:m_post",)
+            return ()
+        f = paths.must_events(body, gen)
+        stale = []
+        for n in okb:
+            o = obj(n)
+            if is_field(o) and ("clr:" + o.get("n")) not in f.at.get(id(n), ()):
+                stale.append(o.get("n"))
+        if stale:
+            ctx.bad("initialize_invariant_tables fills %s with emplace/insert (which keep an existing entry) without clearing the "
+                    "table first: a second run() on the same iterator keeps the previous run's invariants for blocks it skips"
+                    % sorted(set(stale)), fn, okb[0], sig="init-tables-not-cleared", rid=rid)
+        elif tables >= {"m_pre", "m_post"} and len(em) == len(okb):
+            ctx.ok("tables cleared, then every label starts at bottom in m_pre and m_post", fn, body, rid=rid)
         else:
             ctx.bad("invariant tables are not initialised to make_bottom() for both m_pre and m_post", fn, body,
                     sig="init-tables", rid=rid)
